@@ -26,7 +26,7 @@ def main(argv=None):
         with open(a.replay) as f:
             doc = json.load(f)
         case = core.unjson(doc['case'])
-        r = mod.replay(case)
+        r = core.guard(lambda: mod.replay(case))
         print(json.dumps(doc['case'], indent=1)[:4000])
         if r is None:
             print(f'replay: property {mod.ID} HOLDS on this case')
